@@ -167,6 +167,28 @@ fn verify(qr: &fast_qr::QRCode, bc: &BuildCase, what: &str, obs: &mut Obs) -> Re
         }
         obs.label("content_unverifiable_under_named_mask");
     }
+    // The first four bits of the data stream, read under the named mask, are the mode indicator of the reported mode -
+    // whatever follows, and whether or not the reference parser understands the rest (an ECI or structured-append
+    // header in front of the segment would make the symbol start with another indicator than the one reported).
+    {
+        let mut first = 0u8;
+        for (i, &(r, c)) in g.order.iter().take(4).enumerate() {
+            if vals[r * n + c] ^ mask_cond(r_mask, r, c) {
+                first |= 1 << (3 - i);
+            }
+        }
+        let want = match r_mode {
+            Mode::Numeric => 0b0001,
+            Mode::Alphanumeric => 0b0010,
+            Mode::Byte => 0b0100,
+        };
+        ensure!(
+            first == want,
+            "mode_indicator",
+            "reported mode {} (indicator {:04b}) but the data stream of the symbol starts with {:04b} (v{} {} mask {}; {:?})",
+            r_mode.name(), want, first, r_version, r_level.name(), r_mask, bc
+        );
+    }
     // the mode indicator physically present equals the reported mode (only when the data parse at all)
     if let Some(p) = &own {
         // the FIRST mode indicator of the data stream is what a reader sees as the symbol's mode; a symbol that starts
